@@ -66,7 +66,7 @@ func (d *drv) runTrace(id int, r *rand.Rand) {
 		d.probeForged(id, r)
 		return
 	}
-	forged := extra(d.a.Extra, "forged") != ""
+	forged := extra(d.a.Extra, "noforged") == ""
 	t := d.startTrace(id, r)
 	mc := d.mc
 	mode := r.Intn(10) // 0-5 mostly cooperative, 6-7 lossy (timeouts), 8-9 adversarial
@@ -104,7 +104,7 @@ func (d *drv) runTrace(id int, r *rand.Rand) {
 		blocked := mr.GetPhase() == round.Complete
 		lossy := 0
 		if mode >= 6 && mode <= 7 {
-			lossy = 10
+			lossy = 25
 		}
 		switch {
 		case blocked:
@@ -349,6 +349,13 @@ func (d *drv) proposeNext(x *blk, forged bool) {
 		d.envNotarize(x)
 	}
 	y := d.makeBlock(gen, x.r+1, next, x, variant)
+	// the generator is in the next round already: so are its VRF shares (the node creates the round for them)
+	if d.nodeRound(x.r+1) == nil {
+		d.sendShare(gen, x.r+1, 0, sv, "ok", false)
+		for len(t.pend) > 0 {
+			d.dispatch(len(t.pend) - 1)
+		}
+	}
 	d.sendBlock(y, false)
 	t.hist = append(t.hist, func() { d.sendBlock(y, true) })
 }
